@@ -92,7 +92,8 @@ func c16Build(v c16Vec, placement int) *c16Decl {
 	by := func(field, short, long, desc string) *decl.Opt {
 		return &decl.Opt{Field: field, Short: short, Long: long, Desc: desc, Type: decl.TString}
 	}
-	top := &decl.Cmd{Name: "app", SubOptional: true, Desc: "", Opts: []*decl.Opt{by("Top", "t", "toplong", "TOPDESC")}}
+	top := &decl.Cmd{Name: "app", SubOptional: true, Desc: "", Opts: []*decl.Opt{by("Top", "t", "toplong", "TOPDESC"),
+		{Field: "Cb", Long: "cbopt", Desc: "CBODESC", Type: decl.TFuncS}}} // a callback option: it has no default to show
 	sub := &decl.Group{Field: "SubG", Name: "SUBGNAME", Namespace: "sgns", EnvNamespace: "SGENV", Opts: []*decl.Opt{by("SubO", "", "subopt", "SUBODESC")}}
 	hid := &decl.Group{Field: "HidG", Name: "HIDGNAME", Hidden: true, Opts: []*decl.Opt{by("HidO", "", "hidgopt", "HIDGODESC")}}
 	top.Groups = []*decl.Group{sub, hid}
@@ -107,7 +108,9 @@ func c16Build(v c16Vec, placement int) *c16Decl {
 	// a command that has no option of its own, only a subcommand with one
 	leaf := &decl.Cmd{Field: "Leaf", Name: "leafcmd", Desc: "LEAFCDESC", Opts: []*decl.Opt{by("LeafO", "", "leafopt", "LEAFODESC")}}
 	bare := &decl.Cmd{Field: "Bare", Name: "barecmd", Desc: "BARECDESC", Cmds: []*decl.Cmd{leaf}}
-	top.Cmds = []*decl.Cmd{add, rm, hc, bare}
+	// a described command whose name is longer in bytes than in characters, and the longest of all in bytes
+	uml := &decl.Cmd{Field: "Uml", Name: "größe-ändern", Desc: "UMLCDESC"}
+	top.Cmds = []*decl.Cmd{add, rm, hc, bare, uml}
 	switch placement {
 	case c16PlParser:
 		top.Opts = append(top.Opts, u)
@@ -265,6 +268,14 @@ func init() {
 		if given && has("UGIVENX") {
 			c.Fail("given-value-shown-in-help", excerpt(text, "UGIVENX"))
 		}
+		// a callback option has no value that could be shown as its default
+		if gen != 2 {
+			for _, ln := range strings.Split(text, "\n") {
+				if strings.Contains(ln, "CBODESC") && strings.Contains(ln, "default") {
+					c.Fail("default-shown-for-a-callback-option|"+gname, ln)
+				}
+			}
+		}
 		// a masked default's real value never appears (choices that repeat it are avoided when a mask is set)
 		if v.def >= 2 && !v.choices && has("UDFLTX") {
 			c.Fail("masked-default-shown|"+gname, excerpt(text, "UDFLTX"))
@@ -409,7 +420,7 @@ func init() {
 		Rule: "option under test with every attribute vector {short only, long only, both} x description? x default {none, tag, tag+mask, tag+mask '-'} x env? x choices? x value-name? x hidden? (spelled yes / False / NO) x required? (768 vectors; defaults, masks and descriptions contain per-cent signs; without a default also as a bool-kinded Unmarshaler type) " +
 			"x 10 placements (parser group, namespaced subgroup with env-namespace, hidden subgroup, command, command's group, hidden command, sub-subcommand, sibling command, subgroup nested in the env-namespaced subgroup without / with its own env-namespace) x 5 active chains (none, add, add deep, rm, the hidden command) " +
 			"x {WriteHelp after a parse that selects the chain, the ErrHelp text of --help at that chain, WriteManPage} (+ the ErrHelp text requested after an occurrence of the option with a value, which must not show up; + a variant where one command is hidden and another un-hidden through the public Hidden field after a first help/man rendering on the same parser); every string is a unique marker; oracle: a visible option's markers (names, value name, choices, description, default or mask, env) are present and its description sits on its row, " +
-			"nothing of a hidden option / hidden group / hidden or inactive command appears, a masked default's real value never appears; the fixed part of the declaration (bystander options, described positionals, commands with aliases, hidden command and group, a command without options of its own whose subcommand has one) is checked on every leaf; " +
+			"nothing of a hidden option / hidden group / hidden or inactive command appears, a masked default's real value never appears; the fixed part of the declaration (bystander options, described positionals, commands with aliases, hidden command and group, a command without options of its own whose subcommand has one, a described command with a multi-byte name, a func(string) option with a description) is checked on every leaf; " +
 			"distinct = distinct (generator, visible?, placement, chain, markers present)",
 		Assumptions:  []string{"not demanded of the man page: choices, positional arguments, env beside a default (man.go never rendered them)", "help of an active hidden command is not defined by the statement and is skipped"},
 		RequiredHits: []string{"visible|help", "invisible|help", "visible|man", "invisible|man", "value-given-before-help"},
